@@ -88,7 +88,7 @@ def run(ctx):
     # took effect; a "mismatch|..." key names a combination of instructions: a longer combination that
     # includes the instructions of an already reported finding on the same field is the same finding
     accepted, subsumed = [], 0
-    for fd in rep["findings"]:
+    for fd in (rep["findings"] or []):
         group = ADDR.get(fd.get("field"), fd.get("field"))
         ds = set(fd["descs"])
         if fd["key"].startswith("mismatch|") and any(g == group and d <= ds for (g, d) in accepted):
